@@ -1,6 +1,6 @@
 """C04 (structural clauses): log_likelihood reconstructs, for all inputs, to the documented mixture
   sum_r w_r * log( sum_h (1/ploidy) * prod_j [not isnan(v)] v ),  v = reads[r, j, genotype[h, j]],
-w_r = read_counts[r] (1 without counts); log_likelihood_structural_change is the same form with
+w_r = read_counts[r] (1 without counts; a read with count 0 contributes 0); log_likelihood_structural_change is the same form with
 genotype[H(h,j), j], H = haplotype_indices[h] inside the interval else h; structural_change writes
 genotype'[h, j] = genotype[haplotype_indices[h], j] over the same interval convention; the calling and
 pedigree wrappers delegate to log_likelihood(reads, haplotypes[alleles], read_counts).
@@ -31,7 +31,10 @@ def spec(hap_index):
     prod = ('reduce', 'Mult', ('const', 1.0), ('un', 'Not', ('call', 'numpy.isnan', (v,), (), None)), v)
     mix = ('reduce', 'Add', ('const', 0), None, ('bin', 'Div', prod, PLOIDY))
     lg = ('call', 'numpy.log', (mix,), (), None)
-    term = mkphi(('cmp', 'IsNot', ('param', 'read_counts'), ('const', None)), mkbin('Mult', lg, ('idx', ('param', 'read_counts'), r_)), lg)
+    cnt = ('idx', ('param', 'read_counts'), r_)
+    # a read with count 0 contributes nothing, whatever its probability (log(0) * 0 would be NaN: defect V)
+    weighted = mkphi(mkcmp('Eq', cnt, ('const', 0)), ('const', 0.0), mkbin('Mult', lg, cnt))
+    term = mkphi(('cmp', 'IsNot', ('param', 'read_counts'), ('const', None)), weighted, lg)
     return ('reduce', 'Add', ('const', 0.0), None, term)
 
 
